@@ -446,6 +446,21 @@ func genC15(r *Runner) {
 			jobs = append(jobs, base(f, true, "ec256-0", signature.SigningSchemeX509SigningAuthority, t4))
 		}
 	}
+	// 4b. the same vectors against authorities whose certificates have unusual names (an empty subject prints as "")
+	for _, f := range formats {
+		for _, m := range []string{"leaf-empty-subject", "ca-empty-subject", "root-empty-subject", "all-empty-subject"} {
+			for n := 1; n <= 3; n++ {
+				if m == "ca-empty-subject" && n < 2 {
+					continue
+				}
+				for _, v := range allVectors(n) {
+					t := good()
+					t.tsaLen, t.tsaMut, t.validator, t.vec = n, m, "vec", v
+					jobs = append(jobs, base(f, true, "ec256-0", signature.SigningSchemeX509, t))
+				}
+			}
+		}
+	}
 	// 5. caller-written timestampers, and no timestamper at all (with roots / validator still set)
 	for _, f := range formats {
 		for _, sch := range schemes {
